@@ -6,6 +6,7 @@ producer/verifier twins, signing order, block windows, offset assignment on a fi
 from __future__ import annotations
 
 import ast
+import re
 import itertools
 import math
 from typing import Any, Dict, List, Optional, Tuple
@@ -714,6 +715,82 @@ def rule_windows(ctx) -> None:
 
 
 # --------------------------------------------------------------------------- SRK tables / hash
+def rule_srk_verify_index(ctx) -> None:
+    """The SRK record verifiers compare each key parameter with ITS OWN entry of KEY_SIZES: parameter k with KEY_SIZES[key_size][k-1]
+    (a valid RSA record has parameters of different sizes; comparing parameter 2 with entry 0 reports it as erroneous)."""
+    chk = ctx.chk
+    n = 0
+    for cn in ("SRKRecord", "SRKRecordV2"):
+        vf = ctx.own(SRK, cn, "verify")
+        for c in ast.walk(vf.node):
+            if not (isinstance(c, ast.Compare) and len(c.ops) == 1 and isinstance(c.ops[0], (ast.NotEq, ast.Eq))):
+                continue
+            l, r = c.left, c.comparators[0]
+            if not (isinstance(l, ast.Call) and A.call_name(l) == "len" and l.args and isinstance(r, ast.Subscript) and "KEY_SIZES" in norm(r)):
+                continue
+            subj = norm(l.args[0])
+            m = re.search(r"param(\d)", subj)
+            idx = ctx.prog.fold(r.slice, vf.module, vf.cls)
+            if not m or not isinstance(idx, int):
+                continue
+            n += 1
+            chk.decide(idx == int(m.group(1)) - 1, "C06.srk-verify-index", f"{vf.qual} `{subj}`", f"len({subj}) is compared with KEY_SIZES[key_size][{int(m.group(1)) - 1}]",
+                       f"len({subj}) is compared with {norm(r)}", f"index {int(m.group(1)) - 1}", A.loc(SRK, c))
+    if n < 4:
+        raise AnalysisError(f"C06.srk-verify-index: only {n} parameter length comparisons found in the SRK record verifiers")
+
+
+def rule_verify_argument(ctx) -> None:
+    """What a signature block hands to AhabCertificate.verify(srk) provides everything that verifier reads from it: the attributes
+    read from the parameter are collected, the argument's class is taken from the constructor annotation of the attribute passed (or
+    from an isinstance guard around it), and every such class must define those attributes - otherwise verifying a valid container
+    raises AttributeError."""
+    chk, prog = ctx.chk, ctx.prog
+    cv = ctx.own(CERT, "AhabCertificate", "verify")
+    pname = [a.arg for a in cv.node.args.args if a.arg != "self"][0]
+    need = sorted({n.attr for n in ast.walk(cv.node) if isinstance(n, ast.Attribute) and isinstance(n.value, ast.Name) and n.value.id == pname and isinstance(n.ctx, ast.Load)})
+    if not need:
+        raise AnalysisError("C06.verify-argument: AhabCertificate.verify reads nothing from its SRK argument")
+
+    def provides(k) -> set:
+        out = set()
+        for kk in prog.mro(k):
+            out |= set(kk.methods) if hasattr(kk, "methods") else set()
+            for n in ast.walk(kk.node):
+                if isinstance(n, ast.FunctionDef):
+                    out.add(n.name)
+                if isinstance(n, ast.Attribute) and isinstance(n.value, ast.Name) and n.value.id == "self" and isinstance(n.ctx, ast.Store):
+                    out.add(n.attr)
+        return out
+    n_sites = 0
+    for cn in ("SignatureBlock", "SignatureBlockV2"):
+        vf = ctx.own(SB, cn, "verify")
+        kcls = ctx.cls(SB, cn)
+        for c in A.calls_in(vf.node, "verify_block"):
+            arg = next((k.value for k in c.keywords if k.arg == "verify_data"), None)
+            if arg is None:
+                continue
+            n_sites += 1
+            classes = []
+            e = arg
+            if isinstance(e, ast.IfExp) and isinstance(e.test, ast.Call) and A.call_name(e.test) == "isinstance" and isinstance(e.orelse, ast.Constant) and e.orelse.value is None:
+                t = e.test.args[1]
+                classes = [x.id for x in (t.elts if isinstance(t, ast.Tuple) else [t]) if isinstance(x, ast.Name)]
+            elif isinstance(e, ast.Attribute) and isinstance(e.value, ast.Name) and e.value.id == "self":
+                init = prog.find_method(kcls, "__init__")
+                ann = next((a.annotation for a in init.node.args.args + init.node.args.kwonlyargs if a.arg == e.attr), None) if init is not None else None
+                classes = sorted({x.id for x in ast.walk(ann) if isinstance(x, ast.Name) and x.id not in ("Optional", "Union", "None")}) if ann is not None else []
+            if not classes:
+                raise AnalysisError(f"C06.verify-argument: class of `{norm(arg)}` in {vf.qual} not determined")
+            for cname in classes:
+                k2 = ctx.cls(SRK, cname)
+                missing = [a_ for a_ in need if a_ not in provides(k2)]
+                chk.decide(not missing, "C06.verify-argument", f"{vf.qual} certificate <- {cname}", f"`{norm(arg)[:60]}` ({cname}) provides {need}, which AhabCertificate.verify reads from its SRK argument",
+                           f"{cname} has no {missing} (read by AhabCertificate.verify from `{pname}`)", "an SRK table array, or no cross-check", A.loc(SB, c))
+    if n_sites < 2:
+        raise AnalysisError(f"C06.verify-argument: only {n_sites} certificate verification sites found")
+
+
 def rule_srk(ctx) -> None:
     chk, prog = ctx.chk, ctx.prog
     base = ctx.cls(SRK, "SRKRecordBase")
@@ -928,6 +1005,8 @@ def run(ctx) -> None:
     ctx.rule(rule_revoke)
     ctx.rule(rule_windows)
     ctx.rule(rule_srk)
+    ctx.rule(rule_srk_verify_index)
+    ctx.rule(rule_verify_argument)
     from ..engines import attrproto
     ctx.rule(lambda c: attrproto.check(c, "C06.ca-attribute", "ca", 4, 2))
     ctx.rule(rule_offsets)
